@@ -66,19 +66,26 @@ class Holder:
 result_obj = Holder(único)
 print(result_obj.bump(sub_mod.CONST_ONE))
 '''
-HELPER = '''def helper_fn(value):
+# (both modules refer to themselves by their absolute name: a rename of the module / package changes the text of the
+# very file that is renamed)
+HELPER = '''import helper_mod
+
+
+def helper_fn(value):
     doubled = value * 2
     return doubled
 
 
 def unused_fn():
-    return helper_fn(1)
+    return helper_mod.helper_fn(1)
 '''
-SUB = '''CONST_ONE = 1
+SUB = '''import pkg_one.sub_mod
+
+CONST_ONE = 1
 
 
 def shared_fn(x):
-    y = x + CONST_ONE
+    y = x + pkg_one.sub_mod.CONST_ONE
     return y
 '''
 
@@ -345,7 +352,18 @@ def do_request(arg):
                          'hunks': hunks, 'touched': sorted(touched)})
     if malformed:
         files_ev.append({'path': 0, 'orig': [1], 'new': [2], 'origpad': [1], 'newpad': [2], 'hunks': [], 'touched': []})
+    def moved(pth):
+        # where a changed file ends up: the renamed file itself, or a file below a renamed directory (path components)
+        pp = os.path.normpath(str(pth))
+        for a, b in renames:
+            a, b = os.path.normpath(str(a)), os.path.normpath(str(b))
+            if pp == a:
+                pp = b
+            elif pp.startswith(a + os.sep):
+                pp = b + pp[len(a):]
+        return pp
     events.append({'ev': 'Inspect', 'files': files_ev, 'changed': [P(str(p)) for p in changed if p is not None],
+                   'changedto': [P(moved(p)) for p in changed if p is not None],
                    'renames': [[P(a), P(b)] for a, b in renames], 'diffpaths': sorted(set(diffpaths)),
                    'fssame': before == after_inspect})
     info.update(changed=[os.path.relpath(str(p), root) for p in changed if p is not None],
@@ -381,6 +399,15 @@ def do_request(arg):
                        'chg': [[pidx[os.path.relpath(p, root)], C(new.encode('utf-8'))] for p, new in sorted(newcode.items())],
                        'ren': [[pidx[a], pidx[b]] for a, b in fren]})
         info['apply'] = aout
+        # what the trace spec will compute, for the replay file of a rejected Apply event
+        exp = dict(before)
+        for pth, new in sorted(newcode.items()):
+            exp[os.path.relpath(pth, root)] = new.encode('utf-8')
+        for a, b in fren:
+            exp[b] = exp.get(a)
+            exp[a] = None
+        info['apply_diff'] = sorted(q for q in allp if exp.get(q) != after.get(q))
+        info['apply_fren'] = fren
     shutil.rmtree(root, True)
     return {'info': info, 'events': events}
 
